@@ -480,8 +480,129 @@ fn long_ruleset_leg(n: usize, acc: &mut Acc) {
     acc.outcome("long-ruleset");
 }
 
+
+/// extra metadata keys a ruleset implementation might give a meaning to
+const META_WORDS: [&str; 64] = [
+    "enabled", "disabled", "active", "inactive", "skip", "skipped", "ignore", "ignored", "hidden", "deprecated", "priority", "weight", "stop", "final", "halt", "terminal", "tags", "tag", "category", "severity",
+    "level", "id", "version", "condition", "guard", "only", "except", "once", "cache", "cached", "cacheable", "parallel", "index", "depends", "requires", "after", "before", "override", "overrides", "extends",
+    "inherit", "abstract", "template", "draft", "expires", "valid_from", "valid_to", "since", "until", "ttl", "timeout", "retry", "optional", "required", "mute", "muted", "off", "on", "run", "exclude",
+    "include_if", "skip_if", "enabled_if", "result",
+];
+
+/// metadata is inert: whatever key / value a rule carries, the ruleset still yields exactly one
+/// outcome per rule, in order, holding that rule's own value.  One ruleset per metadata value, one
+/// rule per key (plausible keyword-like words and words a scheduler might read), the rules built
+/// with `Rule::new` and, where the text parses, with `Rule::parse`.
+fn metadata_leg(acc: &mut Acc) -> usize {
+    let mut words: Vec<&str> = META_WORDS.to_vec();
+    words.extend(super::c15::PLAUSIBLE_WORDS.iter().copied());
+    words.sort();
+    words.dedup();
+    let values: Vec<(&str, Value)> = vec![
+        ("false", Value::Bool(false)),
+        ("true", Value::Bool(true)),
+        ("none", Value::None),
+        ("i0", Value::Int(0)),
+        ("i1", Value::Int(1)),
+        ("i-1", Value::Int(-1)),
+        ("\"\"", Value::String(String::new())),
+        ("\"false\"", Value::String("false".into())),
+        ("\"no\"", Value::String("no".into())),
+        ("\"off\"", Value::String("off".into())),
+        ("\"never\"", Value::String("never".into())),
+        ("[]", Value::Vec(vec![])),
+        ("{}", Value::Map(BTreeMap::new())),
+        ("f0", Value::Float(0.0)),
+        ("d0", Value::Decimal(rust_decimal::Decimal::ZERO)),
+    ];
+    let mut n = 0;
+    for (vtext, value) in &values {
+        for route in ["Rule::new", "Rule::parse"] {
+            let mut rules: Vec<Rule> = Vec::new();
+            let mut want: Vec<(String, i128)> = Vec::new();
+            for (i, w) in words.iter().enumerate() {
+                let rule = if route == "Rule::new" {
+                    let mut m = BTreeMap::new();
+                    m.insert(w.to_string(), value.clone());
+                    Some(Rule::new(format!("m{i}"), m, Expr::value(i as i128)))
+                } else {
+                    match crate::engine::panic::catch(|| Rule::parse(&format!("// m{i}\n@{w}: {vtext};\ni{i}"))) {
+                        Ok(Ok(r)) => Some(r),
+                        _ => None, // the key is a keyword of the language (or `name` / `description` with a non-string): not this check's subject
+                    }
+                };
+                if let Some(r) = rule {
+                    want.push((r.name().to_string(), i as i128));
+                    rules.push(r);
+                }
+            }
+            if rules.is_empty() {
+                acc.machinery(format!("metadata leg: no rule built for value {vtext} via {route}"));
+                continue;
+            }
+            n += rules.len();
+            let rs = match ruleset().with_rules(rules) {
+                Ok(b) => b.build(),
+                Err(e) => {
+                    acc.machinery(format!("metadata leg: {e}"));
+                    continue;
+                }
+            };
+            acc.count("executions", 1);
+            let out = crate::engine::panic::catch(|| crate::engine::exec::block_on(rs.evaluate_value(&Value::None)));
+            let got: Vec<(String, Result<Value, String>)> = match out {
+                Ok(Ok(Ok(o))) => o.into_iter().map(|x| (x.rule.name().to_string(), x.value.map_err(|e| e.to_string()))).collect(),
+                other => {
+                    acc.violation(Violation {
+                        sig: "metadata/failed".into(),
+                        what: format!("ruleset whose rules carry metadata `<key>: {vtext}` ({route}) failed as a whole: {:?}", other.map(|r| r.map(|x| x.map(|o| o.len()).map_err(|e| e.to_string())))),
+                        case: json!({"kind": "metadata"}),
+                        size: 1,
+                    });
+                    continue;
+                }
+            };
+            let ok = got.len() == want.len() && got.iter().zip(&want).all(|((gn, gv), (wn, wv))| gn == wn && matches!(gv, Ok(Value::Int(x)) if x == wv));
+            if !ok {
+                let missing: Vec<&str> = want.iter().filter(|(wn, _)| !got.iter().any(|(gn, _)| gn == wn)).map(|(wn, _)| words[wn[1..].parse::<usize>().unwrap_or(0)]).take(5).collect();
+                let first_diff = got.iter().zip(&want).position(|((gn, gv), (wn, wv))| !(gn == wn && matches!(gv, Ok(Value::Int(x)) if x == wv)));
+                acc.violation(Violation {
+                    sig: format!("metadata/outcomes/{}", if got.len() != want.len() { "count" } else { "value" }),
+                    what: format!(
+                        "{} rules, rule k = `i<k>` with metadata `<key k>: {vtext}` ({route}): {} outcomes; keys of rules without an outcome: {missing:?}; first differing position: {:?}",
+                        want.len(),
+                        got.len(),
+                        first_diff.map(|p| (p, got.get(p).cloned(), want.get(p).cloned()))
+                    ),
+                    case: json!({"kind": "metadata"}),
+                    size: 1,
+                });
+            }
+            acc.outcome("metadata-inert");
+        }
+    }
+    n
+}
+
 pub fn run(tier: Tier) -> i32 {
     let mut rep = Report::new("C09", tier);
+    {
+        let mut acc = Acc::new();
+        let n = metadata_leg(&mut acc);
+        rep.bound("metadata_leg", format!("{n} rules: one per (metadata key from {} words, value from 15, construction route)", META_WORDS.len() + super::c15::PLAUSIBLE_WORDS.len()));
+        rep.absorb(acc);
+    }
+    // one rule per argument: the rule-level reading of cache transparency (an outcome does not depend
+    // on which other rules ran before it)
+    {
+        let mut members = 0;
+        for reverse in [false, true] {
+            let r = super::crowd::run_crowd("C09", 1, reverse);
+            members = r.members;
+            rep.absorb(r.acc);
+        }
+        rep.bound("argument_crowd_rules", format!("{members} rules `echo(<argument>)` over the near-equal argument families, one cacheable identity function, both orders"));
+    }
     {
         let mut acc = Acc::new();
         for n in tier.pick(vec![100usize, 700], vec![100, 700, 5000]) {
@@ -571,6 +692,23 @@ pub fn run(tier: Tier) -> i32 {
 }
 
 pub fn replay(case: &serde_json::Value) -> i32 {
+    if case.get("kind").and_then(|k| k.as_str()) == Some("argument-crowd") {
+        return super::crowd::replay(case);
+    }
+    if case.get("kind").and_then(|k| k.as_str()) == Some("metadata") {
+        let mut acc = Acc::new();
+        let n = metadata_leg(&mut acc);
+        println!("re-ran the metadata leg ({n} rules)");
+        return if acc.violations.is_empty() {
+            println!("verdict: holds");
+            0
+        } else {
+            for v in acc.violations.values() {
+                println!("verdict: VIOLATED — {}", v.what);
+            }
+            1
+        };
+    }
     if case.get("kind").and_then(|k| k.as_str()) == Some("long-ruleset") {
         let n = case.get("n").and_then(|n| n.as_u64()).unwrap_or(100) as usize;
         let mut acc = Acc::new();
